@@ -1,10 +1,11 @@
 // C16 — finality is safe and irreversible: correspondence and oracle harness.
 //
 // Cases are histories of block deliveries, verification messages (honest, equivocating, malformed) and node
-// restarts against the real finality engine (protocol.Chain on LevelDB, 4-key federation, epoch length 4).
+// restarts against the real finality engine (protocol.Chain on LevelDB, federations of 2..10 keys, epoch length 4).
 // Oracle (independent of the model): the last finalized block only moves to descendants, is always on the main
 // chain, the best block descends from it, and no two stored checkpoints with status Finalized lie on different
-// chains.  The Coq model C16/Model.v is evaluated on every case and compared with the node (stored checkpoint
+// chains; until the first restart a checkpoint only becomes justified / finalized with more than 2n/3 verifying
+// signatures of distinct validators on one link.  The Coq model C16/Model.v is evaluated on every case and compared with the node (stored checkpoint
 // statuses and header sup links, the in-memory tree and its sup links, last finalized, height of last
 // justified, posted verification messages, result of each action).
 package main
@@ -53,6 +54,13 @@ func run(c *Ctx) error {
 	ea := base
 	ea.Early = true
 	add("early-messages", ea, c.N(8, 60))
+	// other validator-set sizes, votes split over forks around the 2n/3 threshold (no restarts, no equivocation)
+	for i, k := 0, c.N(24, 160); i < k; i++ {
+		sz := base
+		sz.N = []int{2, 5, 8, 2, 5, 8, 3, 7, 10, 6}[i%10]
+		sz.Forks, sz.Carried, sz.Malformed, sz.Forged = 2, 30, 2, 5
+		add("sizes-split-votes", sz, 1)
+	}
 	return engine.RunProperty(c, engine.Oracles{C16: true}, cases,
 		"a case counts as non-trivial when the node admitted a verification message, signed a vote of its own or justified a checkpoint")
 }
